@@ -4,6 +4,7 @@
 namespace sim {
 extern int g_host_depth_export;   // >0: allocations go to malloc, not the arena
 bool isStackAddr(const void* p);
+bool isOwnStackAddr(const void* p);
 void taskReap(int id);
 void memReset();
 void traceDumpDiff();
